@@ -23,6 +23,7 @@ def alphabet():
     x, xd, xb = ("A", "x", Q("ex")), ("A", "x", BARE), ("B", "x", Q("ex"))
     return [
         ("ns", "D", "ex", "A"), ("ns", "D", "ex", "B"), ("def", "D", "A"), ("def", "D", "B"),
+        ("ns", "D", "cc", "C"),
         ("bun", "B1", ("C", "b1", Q("bn"))), ("bun", "B1", ("C", "b2", Q("bn"))),
         ("ns", "B1", "ex", "B"), ("def", "B1", "B"),
         ("el", "D", "entity", x), ("el", "D", "entity", xd), ("el", "D", "entity", xb),
@@ -33,7 +34,7 @@ def alphabet():
     ]
 
 
-OPS = ["upd", "addb-doc", "addb-noid", "addb-dup", "addb-bundle", "flat"]
+OPS = ["upd", "addb-doc", "addb-noid", "addb-dup", "addb-dup-string", "addb-bundle", "flat"]
 
 
 def to_model(doc):
@@ -125,6 +126,18 @@ class C09(spec.Spec):
                     expect_refusal = True
                     dup = list(d.bundles)[0].identifier
                     d.add_bundle(o, dup)
+                elif op == "addb-dup-string":
+                    # the identifier of an existing bundle of d, spelt 'prefix:local' with a prefix that
+                    # `other` declares (the identifier is resolved in the attached bundle's scope)
+                    spelt = None
+                    for b in d.bundles:
+                        for ns in o.namespaces:
+                            if ns.prefix and b.identifier.uri.startswith(ns.uri) and len(b.identifier.uri) > len(ns.uri):
+                                spelt = "%s:%s" % (ns.prefix, b.identifier.uri[len(ns.uri):])
+                    if spelt is None or O[1]:
+                        continue
+                    expect_refusal = True
+                    d.add_bundle(o, spelt)
                 elif op == "addb-bundle":
                     ident = QualifiedName(Namespace("bn", NB[0]), "sb")
                     sb = ProvBundle(records=o.get_records(), identifier=ident)
@@ -210,8 +223,10 @@ def main(tier, seed):
     small = [h for h in hists if len(h) <= 2]
     items = []
     if tier == "quick":
-        items += [(a, b, 2) for a in small for b in small]
-        items += [(a, b, 1) for a in hists for b in hists if (len(a) == 3) != (len(b) == 3)]
+        items += [(a, b, 2) for a in small for b in small if len(a) <= 1 and len(b) <= 1]
+        items += [(a, b, 2) for a in small for b in small if (len(a) == 2) != (len(b) == 2) and min(len(a), len(b)) == 0]
+        items += [(a, b, 1) for a in small for b in small if max(len(a), len(b)) == 2]
+        items += [(a, b, 1) for a in hists for b in hists if (len(a) == 3) != (len(b) == 3) and min(len(a), len(b)) <= 1]
     else:
         items += [(a, b, 3) for a in small for b in small]
         items += [(a, b, 2) for a in hists for b in hists if (len(a) == 3) != (len(b) == 3)]
